@@ -18,7 +18,7 @@ ASSUMPTIONS = [
     "agreement is asserted to 1e-12 relative rather than bitwise: with programs attached atomica evaluates function parameters step by step instead of vectorised, and numpy's scalar and SIMD paths may differ in the last bit",
     "runs discarded as in C01 (ill-posed junctions, float overflow)",
 ]
-BUDGET = {"quick": 2000, "thorough": 16000}  # thorough = 8x quick: a depth that was run to completion, quiet, at seed 1 (deterministic given the seed)
+BUDGET = {"quick": 2000, "thorough": 8000}  # thorough = 4x quick: a depth that was run to completion, quiet, at seed 1 (deterministic given the seed)
 TIME_CAP = {"quick": 75, "thorough": 1500}
 PROFILE = {"p_programs": 0.75, "max_steps": 14, "min_steps": 4, "extreme": 0.05, "p_function": 0.4, "p_timed": 0.3, "p_junction": 0.4, "p_interaction": 0.5, "p_output_pars": 0.5}
 
